@@ -185,7 +185,8 @@ func (w *World) fail(props []string, in *Inst, cat, what string, exp, got any) {
 // additionally exercises (C06 after an undo, C13 after a restore, C05 for a
 // non-canonical encoding)
 var ctxCats = map[string]bool{"roots": true, "numleaves": true, "leafpos": true, "gethash": true,
-	"count": true, "leafhashpositions": true, "prove": true, "verify": true, "panic": true, "error": true}
+	"count": true, "leafhashpositions": true, "prove": true, "verify": true, "panic": true, "error": true,
+	"stored": true, "cached": true}
 
 func catClass(cat string) string {
 	for i := 0; i < len(cat); i++ {
